@@ -257,13 +257,14 @@ def random_circuit(rng, L, depth, barriers):
 
 
 def gen(rng, tier):
-    nsplit = {"quick": 180, "thorough": 1800, "search": 300}.get(tier, 60)
-    nsim = {"quick": 90, "thorough": 900, "search": 150}.get(tier, 26)
+    nsplit = {"quick": 180, "thorough": 6000, "search": 300}.get(tier, 60)
+    nsim = {"quick": 90, "thorough": 2500, "search": 150}.get(tier, 26)
     yield {"kind": "d16"}
     for i in range(nsim):
         yield {"kind": "sim", "sub": rng.randrange(1 << 30)}
         for _ in range(nsplit // max(nsim, 1) + 1):
             yield {"kind": "split-cap", "sub": rng.randrange(1 << 30)}
+        yield {"kind": "two-cap", "sub": rng.randrange(1 << 30)}
 
 
 def run_split_cap(inp):
@@ -281,6 +282,12 @@ def run_split_cap(inp):
     if rng.random() < 0.6:  # full-rank flat-ish spectrum: truncation wants to keep everything
         s = sorted((rng.choice([1, 2, 3, 4]) / rng.choice([1, 2, 4]) for _ in range(k)), reverse=True)
     thr = rng.choice([0.0, 0.0, 2.0**-40, 2.0**-12]) if mode == "discarded_weight" else rng.choice([2.0**-30, 0.25])
+    r = rng.random()
+    if r < 0.15:  # the whole block weighs no more than the threshold: the truncation loop never breaks
+        s = [v * 2.0**-12 for v in s]
+        thr = float(sum(v * v for v in s)) * rng.choice([1.0, 2.0, 16.0]) if mode == "discarded_weight" else thr
+    elif r < 0.2:
+        s = [0.0] * k
     tensor, _ = c09.tensor_with_spectrum(nprng, d0, d1, dl, dr, s)
     sp = c09.params(mode, thr, mn, mx)
     rec = []
@@ -309,11 +316,11 @@ def run_sim(inp):
     L = rng.choice([3, 4, 5])
     mx = rng.choice([1, 2, 3, 3, 4, 5, 6, 7])
     mn = rng.choice([1, 2, 2, 3])
-    if mx == 1 and mn == 1:
-        mn = 2  # the D16 point is probed by its own case
     mode = rng.choice(["discarded_weight", "discarded_weight", "relative"])
     thr = rng.choice([1e-12, 1e-9, 1e-6]) if mode == "discarded_weight" else rng.choice([1e-6, 1e-2])
     noisy = rng.random() < 0.6
+    if mx == 1 and mn == 1:
+        noisy = False  # with noise this is the D16 point (SVD centre shift floor), probed by its own case
     flavour = rng.choice(["analog1", "analog2", "analog2", "bug", "strong", "strong", "weak"])
     state_kind = rng.choice(["zeros", "x+", "Neel", "wall", "random", "y+"])
     state = make_state(rng, L, state_kind)
@@ -400,8 +407,16 @@ def run_d16(inp):
     return out
 
 
+def run_two_cap(inp):
+    """two_site_svd (canonicalisation with SVD, MPS.truncate, BUG's closing truncation) with small caps incl. 1"""
+    out = c09.run_two(dict(inp, kind="two-forced"), True)
+    return dict(out, kind="two-cap")
+
+
 def run(inp):
     k = inp["kind"]
+    if k == "two-cap":
+        return run_two_cap(inp)
     if k == "split-cap":
         return run_split_cap(inp)
     if k == "sim":
